@@ -36,6 +36,8 @@ func runC11(c *Ctx) {
 	runStoreWrappersDelegate(c, "R10-store-wrappers-delegate")
 	r.Rule("R11-no-cookie-sentinel-only-from-request", "decodeTicketFromRequest hands back http.ErrNoCookie — which Manager.Clear reads as 'nothing to delete' — only as req.Cookie's own error, never for a ticket cookie that is present but fails validation (round 8)", 1)
 	runNoCookieSentinelOnlyFromRequest(c, "R11-no-cookie-sentinel-only-from-request")
+	r.Rule("R12-part-names-match-the-sweep", "the part names the splitter and loader use are always name_i, the form Clear selects by (KNOWN FINDING on the unchanged tree: defect 18, DESIGN 7)", 1)
+	runPartNamesMatchTheSweep(c, "R12-part-names-match-the-sweep")
 	r.Rule("R8-signout-waits-for-refresh", "a sign-out that meets a refresh in flight waits for the lock: the redis lock returns for a busy lock exactly the sentinel the loader's retry loop tests (shared with C12.R7), so the refreshed session is not saved back after the stored session was deleted", 6)
 	runLockSentinelRule(c, "R8-signout-waits-for-refresh")
 	r.Rule("R9-ticket-verdict-stable", "a ticket cookie is judged inside the same window on every replica and at every moment: signed timestamp within (now - cookie-expire, now + 5 minutes) (shared with C09.R1), so a ticket refused now is not honoured later, after its stored session escaped the sign-out", 2)
